@@ -60,3 +60,8 @@ def gt_elements(ex, cid, rng, st, n):
     valid = [o for o in out[1:1 + n] if o.count(",") == 11]
     cyc = [o for o in out[1 + n:1 + 2 * n] if o.count(",") == 11]
     return valid, cyc, rnd, inp[1:]
+
+
+def pairing_ids(ex):
+    """identifiers the pairing setup accepts in this configuration (embedding degree 12)"""
+    return [cid for cid in range(0, 70) if "p" in info(ex, cid)]
